@@ -169,11 +169,11 @@ func (c replClient) CloseSend() error {
 	c.s.sendClosed.Store(true)
 	return nil
 }
-func (c replClient) Context() context.Context     { return c.s.clientCtx }
-func (replClient) Header() (metadata.MD, error)   { return metadata.MD{}, nil }
-func (replClient) Trailer() metadata.MD           { return metadata.MD{} }
-func (replClient) SendMsg(any) error              { return errors.New("not supported") }
-func (replClient) RecvMsg(any) error              { return errors.New("not supported") }
+func (c replClient) Context() context.Context   { return c.s.clientCtx }
+func (replClient) Header() (metadata.MD, error) { return metadata.MD{}, nil }
+func (replClient) Trailer() metadata.MD         { return metadata.MD{} }
+func (replClient) SendMsg(any) error            { return errors.New("not supported") }
+func (replClient) RecvMsg(any) error            { return errors.New("not supported") }
 
 // ---- server half ----
 
@@ -219,8 +219,8 @@ func (c replServer) Send(a *proto.Ack) error {
 	}
 }
 
-func (c replServer) Context() context.Context { return c.s.srvCtx }
-func (replServer) SetHeader(metadata.MD) error { return nil }
+func (c replServer) Context() context.Context   { return c.s.srvCtx }
+func (replServer) SetHeader(metadata.MD) error  { return nil }
 func (replServer) SendHeader(metadata.MD) error { return nil }
 func (replServer) SetTrailer(metadata.MD)       {}
 func (replServer) SendMsg(any) error            { return errors.New("not supported") }
@@ -276,12 +276,12 @@ func (c snapClient) CloseAndRecv() (*proto.SnapshotResponse, error) {
 		return nil, c.s.clientCtx.Err()
 	}
 }
-func (c snapClient) CloseSend() error             { c.s.closed.Store(true); return nil }
-func (c snapClient) Context() context.Context     { return c.s.clientCtx }
-func (snapClient) Header() (metadata.MD, error)   { return metadata.MD{}, nil }
-func (snapClient) Trailer() metadata.MD           { return metadata.MD{} }
-func (snapClient) SendMsg(any) error              { return errors.New("not supported") }
-func (snapClient) RecvMsg(any) error              { return errors.New("not supported") }
+func (c snapClient) CloseSend() error           { c.s.closed.Store(true); return nil }
+func (c snapClient) Context() context.Context   { return c.s.clientCtx }
+func (snapClient) Header() (metadata.MD, error) { return metadata.MD{}, nil }
+func (snapClient) Trailer() metadata.MD         { return metadata.MD{} }
+func (snapClient) SendMsg(any) error            { return errors.New("not supported") }
+func (snapClient) RecvMsg(any) error            { return errors.New("not supported") }
 
 type snapServer struct{ s *snapStream }
 
@@ -311,8 +311,8 @@ func (c snapServer) SendAndClose(r *proto.SnapshotResponse) error {
 		return errors.New("harness: response already sent")
 	}
 }
-func (c snapServer) Context() context.Context { return c.s.srvCtx }
-func (snapServer) SetHeader(metadata.MD) error { return nil }
+func (c snapServer) Context() context.Context   { return c.s.srvCtx }
+func (snapServer) SetHeader(metadata.MD) error  { return nil }
 func (snapServer) SendHeader(metadata.MD) error { return nil }
 func (snapServer) SetTrailer(metadata.MD)       {}
 func (snapServer) SendMsg(any) error            { return errors.New("not supported") }
